@@ -55,20 +55,20 @@ def specified_pairs(names, pairwise, heuristic):
     return pairs, listlen
 
 
-def run_graph(names, heuristic, pairwise, cap):
+def run_graph(names, heuristic, pairwise, cap, ref_json=''):
     import pandas as pd
     from outrank import core_ranking as cr
     harness.reset_state()
     df = pd.DataFrame({c: [str((i * (j + 2)) % 3) for i in range(3)] for j, c in enumerate(names)})
-    args = harness.make_args(heuristic=heuristic, target_ranking_only='False' if pairwise else 'True', combination_number_upper_bound=cap)
+    args = harness.make_args(heuristic=heuristic, target_ranking_only='False' if pairwise else 'True', combination_number_upper_bound=cap, reference_model_JSON=ref_json)
     with warnings.catch_warnings():
         warnings.simplefilter('ignore')
         res = cr.mixed_rank_graph(df, args, harness.InlinePool(), harness.NullBar())
     return res.triplet_scores, args
 
 
-def judge(names, heuristic, pairwise, cap):
-    ok, res = safe(run_graph, names, heuristic, pairwise, cap)
+def judge(names, heuristic, pairwise, cap, ref_json=''):
+    ok, res = safe(run_graph, names, heuristic, pairwise, cap, ref_json)
     if not ok:
         return [({'kind': 'exception'}, f'mixed_rank_graph raised {res}')]
     trip, args = res
@@ -141,7 +141,7 @@ def _clamp(_):
     return st
 
 
-NAME_SETS = [['user', 'user-type', 'type-id', 'id', 'label'], ['label', 'a-b', 'a', 'b', 'a-b-c', 'c'], ['xlabel', 'label2', 'label', 'la'], ['a AND b', 'b', 'a', 'label', 'a AND b AND c']]
+NAME_SETS = [['BRAND_RELEVANCE', 'a', 'xAND_RELy', 'label', 'r0 AND_REL q0'], ['user', 'user-type', 'type-id', 'id', 'label'], ['label', 'a-b', 'a', 'b', 'a-b-c', 'c'], ['xlabel', 'label2', 'label', 'la'], ['a AND b', 'b', 'a', 'label', 'a AND b AND c']]
 SEQ_SETS = [(['a', 'b', 'label'], 'label'), (['label', 'c'], 'label'), (['a', 'r0 AND_REL q0', 'label', 'b'], 'label'), (['d', 'label', 'a', 'e', 'b'], 'label'), (['label'], 'label'),
             (['a', 'y', 'label'], 'label'), (['a', 'y', 'label'], 'y'), (['a', 'r0 AND_REL q0', 'y', 'label'], 'y')]   # same layout ranked against another label column
 
@@ -169,8 +169,35 @@ def _seqdiff(job):
     return st
 
 
+def _refjson(_):
+    """a reference-model JSON given together with a NON-prior heuristic must not change the set of evaluated pairs"""
+    import json
+    import os
+    from mc.common import scratch_dir, rm_scratch
+    st = Stats()
+    d = scratch_dir('c06j')
+    try:
+        path = os.path.join(d, 'model.json')
+        with open(path, 'w') as f:
+            json.dump({'desc': {'features': ['f0', 'f1', 'f0,f1'], 'fields': ['f2']}}, f)
+        for names in (['f0', 'f1', 'a', 'label'], ['label', 'f0', 'b', 'f1 AND f0'], ['a', 'f0', 'label']):
+            for heuristic in HEUR:
+                for pairwise in (False, True):
+                    for cap in (2, 2 ** 15):
+                        st.count('evaluations')
+                        st.count('nontrivial')
+                        st.count('reference_json_cases')
+                        for sig, msg in judge(names, heuristic, pairwise, cap, path):
+                            st.violation({'columns': names, 'heuristic': heuristic, 'pairwise': pairwise, 'cap': cap, 'ref_json': True}, 'with a reference model JSON: ' + msg, dict(sig, ref_json=True))
+    finally:
+        rm_scratch(d)
+    return st
+
+
 def _dispatch(item):
     k, job = item
+    if k == 'refjson':
+        return _refjson(job)
     if k == 'seqdiff':
         return _seqdiff(job)
     return _job(job) if k == 'sets' else _clamp(job)
@@ -190,7 +217,8 @@ def run(ctx):
     jobs = [('sets', sets[i::48]) for i in range(48)] + [('sets', big[i::32]) for i in range(32)] + [('clamp', None)]
     jobs += [('seqdiff', (h, pw)) for h in HEUR for pw in (False, True)]
     jobs.append(('sets', NAME_SETS))
-    for st in pmap(_dispatch, [j for j in jobs if j[0] in ('clamp', 'seqdiff') or j[1]]):
+    jobs.append(('refjson', None))
+    for st in pmap(_dispatch, [j for j in jobs if j[0] in ('clamp', 'seqdiff', 'refjson') or j[1]]):
         ctx.stats.merge(st)
     ctx.extra['small_column_sets'] = len(sets)
     ctx.extra['large_column_sets'] = len(big)
@@ -201,4 +229,6 @@ def run(ctx):
 def eval_case(case):
     if case.get('kind') == 'seqdiff':
         return seqdiff.replay(seq_call, seq_menu(tuple(case['job'])), case['seq'])
+    if case.get('ref_json'):
+        return [v['what'] for v in _refjson(None).violations]
     return [m for _, m in judge(case['columns'], case['heuristic'], case['pairwise'], case['cap'])]
